@@ -154,8 +154,11 @@ def walk_v(cases):
 
 def lsp_v(cases):
     data = blist(
-        bstr(c['root']) + bstrs(c['uris']) + bstrs(c['ignore']) + bstrs(c['cols']) + btable(c['table'])
-        + blist(b8(1 if x else 0) for x in c['ignored']) + bopt(bstrs(c['modules']) if c['modules_ok'] else None)
+        b8(0 if c['kind'] == 'site' else 1) + b8(1 if c['client'] == 'vscode' else 0)
+        + bstr(c['root']) + bstrs(c['uris']) + bstrs(c['ignore']) + bstrs(c['cols']) + btable(c['table'])
+        + bstr(c['root_path']) + bstrs(c['paths'])
+        + blist(b8(1 if x else 0) for x in c['ignored'])
+        + bopt(bstrs(c['modules']) if c['kind'] == 'site' and c['modules_ok'] else None)
         for c in cases)
     return (HEAD + 'Definition data : list (list int) := %s.\n' % to_ints_v(data) +
             'Definition R := Eval vm_compute in lsp_report data.\n'
@@ -185,39 +188,134 @@ def rel_paths(depth):
     return res
 
 
+# ---- language server: names are spelled differently as plain path, as absolute directory and as file:// URI
+# (percent-encoded by the client); the ignore patterns are always written against the plain root-relative path
+
+LSP_DIRS = ['a', 'b', 'a b', 'gen files', '\u00e9', '\u65e5', 'a#b', 'a?b', '50%', 'a+b', 'x%20y', 'pol\u00edtica']
+LSP_FILES = ['a.rego', 'b.rego', 'p.rego', 'a b.rego', '\u00e9.rego', '\u65e5.rego', 'a#b.rego', 'a+b.rego', '50%.rego', 'a?b.rego',
+             'x%20y.rego', 'a', 'b.json']
+LSP_GLOBS = ['a?b', 'a?b.rego', 'a?b/', '*#*', '\u00e9', '\u00e9/', '/\u00e9', '\u65e5*', '?.rego', '* *', '* */', '/* */', '50%', '*%*', '50%/',
+             'a%20b.rego', 'a%20b', 'x%20y', 'x%2520y', '/a b/', '**/a+b/**', 'a+b', 'a[ +]b', 'gen?files/', 'gen files/',
+             '*.rego', '**/p.rego', 'a b/**/p.rego', '%C3%A9', '%c3%a9/', 'a%23b', '[#?]', '*[#?+]*', 'pol\u00edtica/', 'pol?tica']
+# (workspace root URI, its plain path, client); VS Code spells a Windows drive "c%3A"
+LSP_ROOTS = [('file:///w', '/w', 'generic'), ('file:///w', '/w', 'generic'), ('file:///my%20w', '/my w', 'generic'),
+             ('file:///w/%C3%A9', '/w/\u00e9', 'generic'), ('file:///ws/50%25/x%23y', '/ws/50%/x#y', 'generic'),
+             ('file:///w/a%2Bb', '/w/a+b', 'generic'), ('file:///w', '/w', 'vscode'), ('file:///c%3A/w', '/c:/w', 'vscode'),
+             ('file:///c%3A/my%20w', '/c:/my w', 'vscode'), ('file:///c:/w', '/c:/w', 'vscode')]
+UNRESERVED = set(b'ABCDEFGHIJKLMNOPQRSTUVWXYZabcdefghijklmnopqrstuvwxyz0123456789-_.~')
+
+
+def uri_escape(seg, style='upper', rng=None):
+    """one path segment as a client writes it into a URI: RFC 3986 unreserved characters stay, every other byte is %XY
+    (what regal's uri.FromPath produces: url.QueryEscape with "+" replaced by "%20"); style 'lower': lower-case hex digits;
+    style 'over': one unreserved character escaped as well (allowed, equivalent)"""
+    bs = seg.encode()
+    over = rng.below(len(bs)) if style == 'over' and rng is not None and bs else -1
+    out = ''
+    for k, b in enumerate(bs):
+        if b in UNRESERVED and k != over:
+            out += chr(b)
+        else:
+            out += ('%%%02x' if style == 'lower' else '%%%02X') % b
+    return out
+
+
+def uri_below(root_uri, rel, style='upper', rng=None):
+    return root_uri + '/' + '/'.join(uri_escape(x, style, rng) for x in rel.split('/'))
+
+
+def lsp_rel(rng):
+    d = rng.below(3)
+    return '/'.join([rng.choice(LSP_DIRS) for _ in range(d)] + [rng.choice(LSP_FILES)])
+
+
+def lsp_patterns(rng, rels, pool, n):
+    ign = []
+    for _ in range(n):
+        k = rng.below(10)
+        if k == 0:
+            ign.append('')
+        elif k < 5:
+            r = rng.choice(rels)
+            ign.append(rng.choice([r, '/' + r, r.rsplit('/', 1)[0] + '/', r.rsplit('/', 1)[-1], r.split('/')[0], r.split('/')[0] + '/']))
+        elif k < 8:
+            ign.append(rng.choice(LSP_GLOBS))
+        else:
+            ign.append(rng.choice(pool))
+    return ign
+
+
 def lsp_inputs(ctx):
     rng = ctx.rng
-    pool, rels = token_pool(3), rel_paths(3)
+    pool = token_pool(3)
+
+    def site(root, client, rels, ignore, style='upper', extra=()):
+        return {'kind': 'site', 'root': root, 'client': client, 'uris': [uri_below(root, r, style, rng) for r in rels] + [e[0] for e in extra],
+                'rels': list(rels) + [e[1] for e in extra], 'ignore': ignore}
     fixed = [
-        {'root': 'file:///w', 'uris': ['file:///w/a.rego', 'file:///w/a/b.rego', 'file:///w/a'], 'ignore': ['a/']},
-        {'root': 'file:///w', 'uris': ['file:///w/a.rego', 'file:///w/a/b.rego'], 'ignore': ['', '/a.rego']},
-        {'root': 'file:///w', 'uris': ['file:///w/a.rego', 'file:///w/a/b.rego'], 'ignore': []},
-        {'root': 'file:///w/x', 'uris': ['file:///w/x/b/a.rego', 'file:///w/b/a.rego'], 'ignore': ['/b/']},
+        site('file:///w', 'generic', ['a.rego', 'a/b.rego', 'a'], ['a/']),
+        site('file:///w', 'generic', ['a.rego', 'a/b.rego'], ['', '/a.rego']),
+        site('file:///w', 'generic', ['a.rego', 'a/b.rego'], []),
+        site('file:///w/x', 'generic', ['b/a.rego'], ['/b/'], extra=[('file:///w/b/a.rego', '')]),
+        site('file:///w', 'generic', ['gen files/p.rego', 'main files/p.rego', '\u00e9/p.rego', 'a#b.rego'], ['gen files/', '\u00e9', 'a#b.rego']),
+        site('file:///my%20w', 'generic', ['a b.rego', 'x/a b.rego', 'a+b.rego', '50%.rego'], ['/a b.rego', 'a+b.rego', '*%*']),
+        site('file:///c%3A/w', 'vscode', ['gen files/p.rego', 'a.rego', '\u65e5/\u65e5.rego'], ['gen?files/', '\u65e5*'],
+             extra=[('file:///c:/w/b%20c.rego', 'b c.rego')]),
+        site('file:///w', 'generic', ['a b.rego', 'x%20y.rego'], ['a%20b.rego', 'x%2520y.rego', 'x%20y.rego']),
+        # spellings outside what a client produces (no root-relative name given: only compared with the model)
+        site('file:///w', 'generic', ['a.rego'], ['a+b.rego', 'a b.rego', '%zz.rego'],
+             extra=[('file:///w/a+b.rego', ''), ('file:///w/%zz.rego', ''), ('file:///w/100%.rego', ''), ('/w/a%20b.rego', ''),
+                    ('file:///w/%2', ''), ('file://w/a.rego', '')]),
+        site('file:///c%3a/w', 'vscode', ['a b.rego'], ['a b.rego'], extra=[('file:///C%3A/w/a%20b.rego', ''), ('file://c:/w/a.rego', '')]),
+        {'kind': 'diag', 'root': 'file:///w', 'client': 'generic', 'ignore': ['gen files/', 'vendor/'], 'rule_ignore': [],
+         'rels': ['gen files/p.rego', 'vendor/p.rego', 'main files/p.rego', 'a.rego']},
+        {'kind': 'diag', 'root': 'file:///my%20w', 'client': 'generic', 'ignore': ['\u00e9/', 'a#b.rego'], 'rule_ignore': ['plain/', 'a+b/'],
+         'rels': ['\u00e9/p.rego', 'a#b.rego', 'plain/p.rego', 'a+b/p.rego', 'x/\u65e5.rego', 'b.json']},
+        {'kind': 'load', 'client': 'generic', 'root_dir': ['an c', 'my proj'], 'ignore': ['gen files/', '\u65e5.rego'], 'rule_ignore': ['b#c/'],
+         'files': ['gen files/p.rego', 'a.rego', 'b#c/p.rego', 'x/\u65e5.rego', 'plain/b.rego']},
+        {'kind': 'load', 'client': 'vscode', 'root_dir': ['50%', '\u00e9'], 'ignore': ['/a b.rego', 'a+b/'], 'rule_ignore': [],
+         'files': ['a b.rego', 'x/a b.rego', 'a+b/p.rego', 'p.rego']},
     ]
+    for c in fixed:
+        if c['kind'] == 'diag':
+            c['uris'] = [uri_below(c['root'], r) for r in c['rels']]
+        if c['kind'] == 'load':
+            c['rels'] = list(c['files'])
     cases = list(fixed)
-    n = 120 if ctx.quick() else 1500
-    for _ in range(n):
-        root = rng.choice(['file:///w', 'file:///w', 'file:///w/x', 'file:///ws'])
-        uris = list(dict.fromkeys(root + '/' + rng.choice(rels) for _ in range(4 + rng.below(8))))
+    n_site, n_diag, n_load = (170, 14, 8) if ctx.quick() else (1500, 100, 60)
+    for _ in range(n_site):
+        root, rootp, client = rng.choice(LSP_ROOTS)
+        rels = list(dict.fromkeys(lsp_rel(rng) for _ in range(4 + rng.below(8))))
+        style = rng.choice(['upper', 'upper', 'upper', 'lower', 'over'])
+        extra = []
         if rng.below(6) == 0:
-            uris.append('file:///elsewhere/' + rng.choice(rels))
-        ign = []
-        for _ in range(rng.below(4)):
-            k = rng.below(8)
-            if k == 0:
-                ign.append('')
-            elif k < 4:
-                r = rng.choice(rels)
-                ign.append(rng.choice([r, '/' + r, r.rsplit('/', 1)[0] + '/', r.rsplit('/', 1)[-1]]))
-            else:
-                ign.append(rng.choice(pool))
-        cases.append({'root': root, 'uris': uris, 'ignore': ign})
+            extra.append(('file:///elsewhere/' + uri_escape(rng.choice(LSP_FILES)), ''))
+        if client == 'vscode' and root.startswith('file:///c%3A') and rng.below(2) == 0:
+            r = lsp_rel(rng)     # root and file differ in the way the drive letter is spelled
+            extra.append((uri_below('file:///c:' + root[len('file:///c%3A'):], r), r))
+        cases.append(site(root, client, rels, lsp_patterns(rng, rels, pool, rng.below(4)), style, extra))
+    for _ in range(n_diag):
+        root, rootp, client = rng.choice(LSP_ROOTS)
+        rels = list(dict.fromkeys(lsp_rel(rng) for _ in range(4 + rng.below(5))))
+        cases.append({'kind': 'diag', 'root': root, 'client': client, 'rels': rels, 'uris': [uri_below(root, r) for r in rels],
+                      'ignore': lsp_patterns(rng, rels, pool, 1 + rng.below(3)), 'rule_ignore': lsp_patterns(rng, rels, pool, rng.below(3))})
+    for _ in range(n_load):
+        files = list(dict.fromkeys(lsp_rel(rng) for _ in range(4 + rng.below(5))))
+        files = [f for f in files if not any(f.startswith(g + '/') or g.startswith(f + '/') for g in files)]  # no file/directory clash
+        cases.append({'kind': 'load', 'client': rng.choice(['generic', 'generic', 'vscode']),
+                      'root_dir': [rng.choice(LSP_DIRS) for _ in range(1 + rng.below(2))], 'files': files, 'rels': list(files),
+                      'ignore': lsp_patterns(rng, files, pool, 1 + rng.below(3)), 'rule_ignore': lsp_patterns(rng, files, pool, rng.below(2))})
     return cases
+
+
+LSP_IN_KEYS = ('kind', 'root', 'client', 'uris', 'rels', 'ignore', 'rule_ignore', 'root_dir', 'files')
 
 
 def run_lsp(ctx, cases):
     inp, outp = os.path.join(ctx.tmp, 'lsp_in.json'), os.path.join(ctx.tmp, 'lsp_out.json')
-    json.dump(cases, open(inp, 'w'))
+    work = os.path.join(ctx.tmp, 'lspwork')
+    os.makedirs(work, exist_ok=True)
+    json.dump({'work': work, 'cases': [{k: c.get(k) for k in LSP_IN_KEYS if c.get(k) is not None} for c in cases]}, open(inp, 'w'))
     rc, log = vlib.go_test_overlay(
         ctx, './internal/lsp',
         {'internal/lsp/zz_verif_c05_test.go': os.path.join(vlib.VERIF, 'harness', 'overlay', 'c05_test.go')},
@@ -226,29 +324,95 @@ def run_lsp(ctx, cases):
         if 'build failed' in log or ('.go:' in log and 'FAIL' in log and 'panic' not in log):
             raise vlib.HarnessBuildError(log)
         raise RuntimeError('c05 overlay test failed:\n' + log[-3000:])
-    return json.load(open(outp))
+    res = json.load(open(outp))
+    # real trees live below the temporary work directory: spell it /W
+    return [json.loads(json.dumps(c).replace(json.dumps(work + '/l%d' % i)[1:-1], '/W')) if c['kind'] == 'load' else c
+            for i, c in enumerate(res)]
+
+
+LSP_RULE = 'prefer-snake-case'
+
+
+def lsp_root_relative_text(c, u):
+    """the text of the URI behind the root URI (what a matcher that does not decode is handed)"""
+    return u[len(c['root']) + 1:] if u.startswith(c['root'] + '/') else None
 
 
 def lsp_predicate(c):
-    """the server's two call sites (path based, URI based) and a direct FilterIgnoredPaths call agree"""
+    """meaning of the property for the language server, evaluated on the implementation alone: the reference is the
+    matcher itself asked (as on the command line, without prefix) about the plain root-relative path of every URI.
+    A file whose path matches a global pattern is ignored by ignoreURI, dropped by getFilteredModules, never among the
+    files to lint and never gets diagnostics; a file matching no pattern is never dropped and does get diagnostics;
+    a file matching the rule's own list gets no diagnostic of that rule.  Returns [(what, uri index, known)]"""
+    if c.get('panic'):
+        return []
     any_bad = any(r[1] == 'bad' for r in (c['table'] or []))
-    if not (c['modules_ok'] and c['direct_ok']):
-        return None if any_bad else 'FilterIgnoredPaths returned an error although every expansion compiles'
-    mods = set(c['modules'])
-    direct = set(c['direct'])
-    for u, ig in zip(c['uris'], c['ignored']):
-        if not u.endswith('.rego'):
-            if not ig:
-                return 'ignoreURI(%r) = false for a non-.rego URI' % u
+    if c.get('err'):
+        return [] if any_bad else [('language server failed: %s' % c['err'], None, False)]
+    out = []
+    if c['kind'] == 'site' and not (c['modules_ok'] and c['direct_ok']) and not any_bad:
+        out.append(('getFilteredModules / FilterIgnoredPaths returned an error although every expansion compiles', None, False))
+    mods, direct = set(c.get('modules') or []), set(c.get('direct') or [])
+    for i, u in enumerate(c['uris']):
+        rk, rel = c['rel_kept'][i], c['rels'][i]
+        if rk == -2:
+            continue   # no root-relative name (not below the root / not a URI a client produces): only compared with the model
+        if rk == -1:
+            continue   # an expansion does not compile: outside the domain
+        matching = rk == 0
+        exp_ignored = matching or not u.endswith('.rego')
+        why = 'root-relative path %r %s global pattern of %r' % (rel, 'matches a' if matching else 'matches no', c['ignore'])
+        if c['kind'] == 'site':
+            if c['ignored'][i] != exp_ignored:
+                out.append(('ignoreURI(%r) = %s, but the %s' % (u, c['ignored'][i], why), i, False))
+            if c['modules_ok'] and (u in mods) == matching:
+                out.append(('getFilteredModules %s %r, but the %s' % ('keeps' if u in mods else 'drops', u, why), i, False))
+            if c['direct_ok'] and (c['paths'][i] in direct) == matching:
+                out.append(('FilterIgnoredPaths on uri.ToPath(%r) = %r with prefix %r %s it, but the %s' % (
+                    u, c['paths'][i], c['root_path'], 'keeps' if c['paths'][i] in direct else 'drops', why), i, False))
             continue
-        if not u.startswith(c['root'] + '/'):
-            continue   # not below the workspace root: no root-relative name, outside the property (the model is still compared)
-        path = u[len('file://'):]
-        if ig != (u not in mods):
-            return 'ignoreURI(%r) = %s but getFilteredModules %s it' % (u, ig, 'drops' if u not in mods else 'keeps')
-        if ig != (path not in direct):
-            return 'ignoreURI(%r) = %s but FilterIgnoredPaths on the path %s it' % (u, ig, 'drops' if path not in direct else 'keeps')
-    return None
+        in_files, diags = not c['ignored'][i], c['diags'][i]
+        if exp_ignored:
+            if in_files:
+                out.append(('%r is among the files to lint, but the %s' % (u, why), i, False))
+            if diags:
+                out.append(('%r got diagnostics %r, but the %s' % (u, diags, why), i, False))
+            if c['kind'] == 'diag' and u.endswith('.rego') and not c['in_ignored'][i]:
+                out.append(('%r is not among the ignored files of the cache, but the %s' % (u, why), i, False))
+            continue
+        if not in_files:
+            out.append(('%r was dropped (not among the files to lint), but the %s' % (u, why), i, False))
+            continue
+        rr = c['rel_rule_kept'][i]
+        if rr == -1:
+            continue
+        has = LSP_RULE in diags
+        # open finding: the linter (second global filter, per-rule lists; Go and Rego alike) relativises the URI without decoding
+        # it. Only observations that this mechanism explains carry its signature: the URI's text behind the root differs from the
+        # path, and the matcher asked about that ENCODED text answers the way the server behaved
+        differs = lsp_root_relative_text(c, u) != rel
+        ek, er = c['enc_kept'][i], c['enc_rule_kept'][i]
+        if rr == 0 and has:
+            out.append(('%r got a %s diagnostic, but its root-relative path %r matches the rule\'s own ignore list %r' % (
+                u, LSP_RULE, rel, c['rule_ignore']), i, differs and ek == 1 and er == 1))
+        if rr == 1 and not has:
+            out.append(('%r got no %s diagnostic (diagnostics: %r), but its root-relative path %r matches neither a global pattern of %r '
+                        'nor the rule\'s own list %r' % (u, LSP_RULE, diags, rel, c['ignore'], c['rule_ignore']), i,
+                        differs and (ek == 0 or er == 0)))
+    return out
+
+
+def lsp_minimal(c, i):
+    """the stored case: for the call sites the one URI suffices"""
+    keep = {k: c.get(k) for k in LSP_IN_KEYS if c.get(k) is not None}
+    if c['kind'] == 'site' and i is not None:
+        keep['uris'], keep['rels'] = [c['uris'][i]], [c['rels'][i]]
+    if c['kind'] == 'load':
+        keep.pop('root', None)
+        keep.pop('uris', None)
+    keep['kind'] = 'lsp'
+    keep['lsp_kind'] = c['kind']
+    return keep
 
 
 def codes(out, marker, expect_n):
@@ -286,6 +450,35 @@ def pat_predicate(c, shapes):
                         'n_files_differ': sum(1 for i in range(len(gb)) if gb[i] != rb[i]),
                         'min_shape': {'name': s['name'], 'prefix': s['prefix'], 'lead': s['lead'], 'full': False,
                                       'files': [s['files'][j]], 'rel': [s['rel'][j]]}})
+    # "with or without a project root prefix": the shapes of one group name the same files relative to their prefix (plain, below an
+    # absolute directory, as file:// URI with the path percent-encoded) -- the pattern must exclude the same ones in each
+    groups = collections.OrderedDict()
+    for si, s in enumerate(shapes):
+        if s.get('group'):
+            groups.setdefault(s['group'], []).append(si)
+    for sis in groups.values():
+        ref = sis[0]
+        if c['go'][ref] in ('error', 'notsublist'):
+            continue
+        n = len(shapes[ref]['files'])
+        rb = bits(c['go'][ref], n)
+        for si in sis[1:]:
+            if c['go'][si] in ('error', 'notsublist') or c['go'][si] == c['go'][ref]:
+                continue
+            s, gb = shapes[si], bits(c['go'][si], n)
+            seen = set()
+            for j in range(n):
+                if gb[j] == rb[j]:
+                    continue
+                # open finding: a matcher that only trims the prefix sees the percent-encoded text of the URI
+                known = bool(s.get('enc')) and s['files'][j][len(s['lead']):] != s['rel'][j]
+                if known in seen:
+                    continue
+                seen.add(known)
+                mins = [{'name': x['name'], 'prefix': x['prefix'], 'lead': x['lead'], 'full': False, 'group': x['group'], 'enc': x.get('enc', False),
+                         'files': [x['files'][j]], 'rel': [x['rel'][j]]} for x in (shapes[ref], s)]
+                bad.append({'shape': s['name'], 'cross': True, 'known': known, 'prefix': s['prefix'], 'file': s['files'][j], 'rel': s['rel'][j],
+                            'excluded_here': gb[j], 'excluded_without_prefix': rb[j], 'min_shapes': mins})
     return bad
 
 
@@ -337,7 +530,22 @@ def lint_true_rel(c):
     return c['rel']
 
 
-def lint_predicate(c):
+def lint_seen_rel(c):
+    """the text a matcher that only trims the prefix is handed (differs from the root-relative path for percent-encoded URIs)"""
+    if c['mode'] == 'modules-uri' and c['prefix']:
+        pre = c['prefix'].rstrip('/') + '/'
+        return [f[len(pre):] if f.startswith(pre) else f for f in c['files']]
+    return None
+
+
+def lint_uri_encoded_known(c):
+    """open finding (round 3): file:// names are relativised without percent-decoding. True when the case fails against the
+    root-relative paths, some name is spelled differently in its URI, and the very same predicate holds for the encoded text"""
+    seen = lint_seen_rel(c)
+    return seen is not None and seen != lint_true_rel(c) and lint_predicate(c, seen) is None
+
+
+def lint_predicate(c, rel_override=None):
     """meaning of the property, evaluated with the engine table and Regal's own expansion of each pattern"""
     tbl = {r[0]: (None if r[1] == 'bad' else set(r[2:])) for r in (c['table'] or [])}
 
@@ -353,7 +561,7 @@ def lint_predicate(c):
             return None
         return 'Lint failed: %s' % c['err']
     glob = c['cli'] if c['cli'] else (c['cfg'] if c['cfg_set'] else [])
-    rel = lint_true_rel(c)
+    rel = rel_override if rel_override is not None else lint_true_rel(c)
     scanned = [i for i in range(len(rel)) if not match_any(glob, rel[i])]
     if c['files_scanned'] != len(scanned):
         drop = [c['files'][i] for i in range(len(rel)) if i not in scanned]
@@ -466,7 +674,10 @@ def run(ctx):
         lsp_in = lsp_inputs(ctx)
     elif replay_kind == 'lsp':
         rc0 = json.load(open(ctx.replay))['case']
-        lsp_in = [{'root': rc0['root'], 'uris': rc0['uris'], 'ignore': rc0['ignore']}]
+        lsp_in = [dict({k: rc0[k] for k in LSP_IN_KEYS if rc0.get(k) is not None}, kind=rc0.get('lsp_kind', 'site'),
+                       client=rc0.get('client', 'generic'))]
+        if 'rels' not in lsp_in[0]:
+            lsp_in[0]['rels'] = ['' for _ in lsp_in[0]['uris']]
     with ThreadPoolExecutor(max_workers=2) as ex0:
         fut = ex0.submit(run_lsp, ctx, lsp_in) if lsp_in else None
         if replay_kind == 'lsp':
@@ -498,8 +709,11 @@ def run(ctx):
     for lo in range(0, len(lints), 100):
         jobs.append(('lint', lo, len(lints[lo:lo + 100]), lint_v(lints[lo:lo + 100])))
 
-    for lo in range(0, len(lsps), 400):
-        jobs.append(('lsp', lo, len(lsps[lo:lo + 400]), lsp_v(lsps[lo:lo + 400])))
+    lsp_panics = [c for c in lsps if c.get('panic')]
+    lsp_all = lsps
+    lsps = [c for c in lsps if not c.get('panic') and not c.get('err')]   # (a failed run is reported by the predicate)
+    for lo in range(0, len(lsps), 100):
+        jobs.append(('lsp', lo, len(lsps[lo:lo + 100]), lsp_v(lsps[lo:lo + 100])))
     for lo in range(0, len(walks), 150):
         jobs.append(('walk', lo, len(walks[lo:lo + 150]), walk_v(walks[lo:lo + 150])))
 
@@ -534,7 +748,7 @@ def run(ctx):
 
     # ---- implementation side
     explained = set()
-    n_go_err = n_go_err_unexplained = 0
+    n_go_err = n_go_err_unexplained = n_uri_known = 0
     pat_viol = 0
     for i, c in enumerate(pats):
         rows_bad = any(not r['ok'] for r in c['rows'])
@@ -548,6 +762,25 @@ def run(ctx):
                                signature={'kind': 'go-error', 'key': c['p']})
             continue
         bad = pat_predicate(c, shapes)
+        for b in [b for b in bad if b.get('cross') and b['known']]:
+            n_uri_known += 1
+            vlib.violation(ctx, {'kind': 'lsp-uri-encoded-name', 'case': {'kind': 'pat', 'p': c['p'], 'shapes': b['min_shapes']},
+                                 'what': 'pattern %r: FilterIgnoredPaths with prefix %r excluded=%s for %r, but excluded=%s for the same relative path %r '
+                                         'without prefix' % (c['p'], b['prefix'], b['excluded_here'], b['file'], b['excluded_without_prefix'], b['rel'])},
+                           signature={'kind': 'lsp-uri-encoded-name', 'key': 'linter filters see the percent-encoded root-relative name of a URI'})
+        bad = [b for b in bad if not (b.get('cross') and b['known'])]
+        cross = [b for b in bad if b.get('cross')]
+        bad = [b for b in bad if not b.get('cross')]
+        if cross and not bad:
+            explained.add(('pat', i))
+            pat_viol += 1
+            if pat_viol <= 3:
+                b = cross[0]
+                vlib.violation(ctx, {'kind': 'prefix-dependence', 'case': {'kind': 'pat', 'p': c['p'], 'shapes': b['min_shapes']},
+                                     'observation': {k: v for k, v in b.items() if k != 'min_shapes'},
+                                     'what': 'pattern %r: FilterIgnoredPaths with prefix %r excluded=%s for %r, but excluded=%s for the same relative path %r '
+                                             'without prefix' % (c['p'], b['prefix'], b['excluded_here'], b['file'], b['excluded_without_prefix'], b['rel'])},
+                               signature={'kind': 'prefix-dependence', 'key': json.dumps([c['p'], b['prefix'], b['file']])})
         if bad:
             explained.add(('pat', i))
             pat_viol += 1
@@ -573,8 +806,15 @@ def run(ctx):
     for i, c in enumerate(lints):
         w = lint_predicate(c)
         if w:
-            if not cli_relative_elsewhere(c):
+            if not cli_relative_elsewhere(c) and not lint_uri_encoded_known(c):
                 explained.add(('lint', i))   # (the known finding must not hide a model mismatch on the same case)
+            if lint_uri_encoded_known(c):
+                n_uri_known += 1
+                vlib.violation(ctx, {'kind': 'lsp-uri-encoded-name', 'case': c,
+                                     'what': 'Lint(%s, prefix %r), cli %r, config %r, per rule %r: %s' % (
+                                         c['mode'], c['prefix'], c['cli'], c['cfg'] if c['cfg_set'] else None, c['rule_ignore'], w)},
+                               signature={'kind': 'lsp-uri-encoded-name', 'key': 'linter filters see the percent-encoded root-relative name of a URI'})
+                continue
             if cli_relative_elsewhere(c):
                 # one call site, one cause: the names handed to both matchers are relative to the working directory
                 n_cli_rel += 1
@@ -609,16 +849,34 @@ def run(ctx):
                                signature={'kind': 'walk', 'key': json.dumps([c['mode'], c['root'], c['sub'], c['arg'], c['prefix'], c['cli'], c['cfg'],
                                                                              c['rule_ignore'], [e['rel'] for e in c['entries']]], sort_keys=True)})
 
-    lsp_viol = 0
-    for i, c in enumerate(lsps):
-        w = lsp_predicate(c)
-        if w:
-            explained.add(('lsp', i))
+    lsp_viol = n_lsp_known = 0
+    for c in lsp_all:
+        if c.get('err') and lsp_predicate(c):
             lsp_viol += 1
-            if lsp_viol <= 2:
-                vlib.violation(ctx, {'kind': 'lsp', 'case': dict(c, kind='lsp'),
-                                     'what': 'language server, root %r, ignore %r: %s' % (c['root'], c['ignore'], w)},
-                               signature={'kind': 'lsp', 'key': json.dumps([c['root'], c['uris'], c['ignore']])})
+            vlib.violation(ctx, {'kind': 'lsp', 'case': lsp_minimal(c, None), 'what': lsp_predicate(c)[0][0]},
+                           signature={'kind': 'lsp', 'key': json.dumps(lsp_minimal(c, None), sort_keys=True)})
+    for i, c in enumerate(lsps):
+        ws = lsp_predicate(c)
+        if not ws:
+            continue
+        if any(not known for _, _, known in ws):
+            explained.add(('lsp', i))      # (the open finding must not hide a model mismatch on the same case)
+        for w, j, known in ws:
+            if known:
+                n_lsp_known += 1
+                vlib.violation(ctx, {'kind': 'lsp-uri-encoded-name', 'case': lsp_minimal(c, j),
+                                     'what': 'language server (%s client), root %r, ignore %r, per rule ignore %r: %s' % (c['client'], c['root'], c['ignore'], c['rule_ignore'], w)},
+                               signature={'kind': 'lsp-uri-encoded-name',
+                                          'key': 'linter filters see the percent-encoded root-relative name of a URI'})
+        ws = [x for x in ws if not x[2]]
+        if ws:
+            lsp_viol += 1
+            if lsp_viol <= 3:
+                w, j, _ = ws[0]
+                how = {'site': 'call sites', 'diag': 'documents opened, then linted', 'load': 'workspace loaded from disk, then linted'}[c['kind']]
+                vlib.violation(ctx, {'kind': 'lsp', 'case': lsp_minimal(c, j), 'n_observations': len(ws),
+                                     'what': 'language server (%s client; %s), root %r, ignore %r: %s' % (c['client'], how, c['root'], c['ignore'], w)},
+                               signature={'kind': 'lsp', 'key': json.dumps(lsp_minimal(c, j), sort_keys=True)})
 
     # ---- correspondence failures that no failing input explains
     corr = []
@@ -634,7 +892,8 @@ def run(ctx):
             corr.append({'layer': 'lint', 'codes': cs, 'case': lints[i]})
     for i, cs in sorted(lsp_fail.items()):
         if ('lsp', i) not in explained:
-            corr.append({'layer': 'lsp', 'codes': cs, 'case': {k: lsps[i][k] for k in ('root', 'uris', 'ignore', 'ignored', 'modules')}})
+            corr.append({'layer': 'lsp', 'codes': cs, 'case': {k: lsps[i].get(k) for k in ('kind', 'client', 'root', 'uris', 'ignore', 'root_path',
+                                                                                         'paths', 'ignored', 'modules')}})
     for i, cs in sorted(walk_fail.items()):
         if ('walk', i) not in explained:
             corr.append({'layer': 'walk', 'codes': cs, 'case': {k: walks[i].get(k) for k in ('mode', 'root', 'sub', 'arg', 'prefix', 'cli', 'cfg',
@@ -680,7 +939,7 @@ def run(ctx):
     cov = proof_coverage(ctx, {
         'evaluations': len(pats) * nfiles * 2 + sum(len(c['files']) for c in smalls) * 3 + len(lints) + sum(len(c['uris']) for c in lsps) * 2
                        + len(walks),
-        'distinct_nontrivial': nontrivial + small_nt + lint_nt + sum(1 for c in lsps if 0 < len(c['modules']) < len(c['uris']))
+        'distinct_nontrivial': nontrivial + small_nt + lint_nt + sum(1 for c in lsps if 0 < sum(c['ignored']) < len(c['uris']))
                                + sum(1 for c in walks if not c.get('err') and 0 < c['files_scanned'] < len(walk_expected(c))),
         'rule': 'pat: every token pattern (<= 3 tokens exhaustive, 4 tokens %s) over {a, b.rego, *, **, ?, /, [ab]} plus odd and malformed '
                 'ones, each against %d files in %d (prefix, spelling) shapes on both matchers; non-trivial = the pattern excludes some but '
@@ -706,7 +965,14 @@ def run(ctx):
         'walk_root_or_ancestor_name_matches_a_pattern': sum(1 for c in walks if walk_root_matched(c)),
         'walk_nontrivial': sum(1 for c in walks if not c.get('err') and 0 < c['files_scanned'] < len(walk_expected(c))),
         'lsp_cases': len(lsps), 'lsp_uris': sum(len(c['uris']) for c in lsps),
-        'lsp_nontrivial': sum(1 for c in lsps if 0 < len(c['modules']) < len(c['uris'])),
+        'lsp_kinds': dict(collections.Counter('%s|%s' % (c['kind'], c['client']) for c in lsps)),
+        'lsp_nontrivial': sum(1 for c in lsps if 0 < sum(c['ignored']) < len(c['uris'])),
+        'lsp_uris_spelled_differently_from_their_path': sum(1 for c in lsps for u, r in zip(c['uris'], c['rels'])
+                                                            if r and lsp_root_relative_text(c, u) != r),
+        'lsp_ignored_uris_spelled_differently': sum(1 for c in lsps for u, r, k in zip(c['uris'], c['rels'], c['rel_kept'])
+                                                    if r and k == 0 and lsp_root_relative_text(c, u) != r),
+        'lsp_engine_panics': [{'ignore': c['ignore'], 'what': c['panic']} for c in lsp_panics][:10],
+        'known_finding_lsp_uri_encoded_rule_ignore_cases': n_lsp_known, 'known_finding_uri_encoded_pattern_cases': n_uri_known,
         'predicate_failures': {'pat': pat_viol, 'small': small_viol, 'lint': lint_viol, 'lsp': lsp_viol, 'walk': walk_viol,
                                'go_error_unexplained': n_go_err_unexplained},
         'samples': samples, 'timing_s': tm,
@@ -722,6 +988,8 @@ def run(ctx):
         'file discovery is Model/Discover.v walk (property C02) with the pinned constants (.rego; .git, .idea, node_modules); the walk layer '
         'composes it with the matcher on real trees given as directory arguments; the other lint cases pass explicit files; symbolic '
         'links and unreadable directories are outside',
-        'LSP call sites ignoreURI / getFilteredModules are driven directly (overlay test in package lsp) with the generic client '
-        'and names without percent escapes; uri.ToPath is modelled as TrimPrefix(uri, "file://") for those',
+        'language server: ignoreURI / getFilteredModules, textDocument/didOpen + updateAllDiagnostics and loadWorkspaceContents are driven '
+        'directly (overlay test in package lsp, generic and VS Code client) with percent-encoded URIs; uri.ToPath is modelled '
+        '(uri_to_path: url.QueryUnescape, drive letter form) and compared with the real one on every URI; the JSON-RPC transport and the '
+        'asynchronous workers are outside',
     ])
